@@ -13,7 +13,7 @@ Definition d_rec (r : record) : Z :=
   mixl 17 [Z.of_N (r_wf r); Z.of_N (r_fid r); Z.of_N (r_run r); rs_code (r_state r); r_status r; d_obj (r_obj r);
            r_created r; r_updated r; r_ver r; Z.of_N (r_reason r); r_desc r].
 Definition d_orec (r : option record) : Z := match r with Some x => mix 19 (d_rec x) | None => 23 end.
-Definition d_topic (t : topic) : Z := match t with TStatus s => mix 29 s | TDelete => 31 | TRunStateChange => 37 end.
+Definition d_topic (t : topic) : Z := match t with TStatus s => mix 29 s | TDelete => 31 | TRunStateChange => 37 | TConn c => mix 39 (Z.of_N c) end.
 Definition d_event (e : event) : Z :=
   mixl 41 [e_id e; Z.of_N (e_wf e); d_topic (e_topic e); Z.of_N (e_run e); Z.of_N (e_fid e); e_type e; e_state e; e_ver e; e_created e].
 Definition d_oentry (o : oentry) : Z :=
